@@ -426,6 +426,38 @@ LARGER_ENCODERS = {
         "self._clauses.append([-variables[0].bool_vars[v1], -variables[1].bool_vars[v2], partial_sum.bool_vars[s]])",
         "self._encode_sum_eq([partial_sum] + list(variables[2:]), target)",
     ],
+    "SATEncoder._encode_sum_le": [
+        "if len(variables) == 0:\n        return",
+        "if len(variables) == 1:\n        v = variables[0]\n        for val in range(v.lb, v.ub + 1):\n            if val > target:\n                self._clauses.append([-v.bool_vars[val]])\n        return",
+        "if len(variables) == 2:\n        v1, v2 = variables\n        for val1 in range(v1.lb, v1.ub + 1):\n            for val2 in range(v2.lb, v2.ub + 1):\n                if val1 + val2 > target:\n                    self._clauses.append([-v1.bool_vars[val1], -v2.bool_vars[val2]])\n        return",
+        "v1, v2 = (variables[0], variables[1])\n    rest_min = sum((v.lb for v in variables[2:]))\n    partial_sum = self._create_int_var(v1.lb + v2.lb, min(v1.ub + v2.ub, target - rest_min))",
+        "s = val1 + val2\n            if s in partial_sum.bool_vars:\n                self._clauses.append([-v1.bool_vars[val1], -v2.bool_vars[val2], partial_sum.bool_vars[s]])\n            else:\n                self._clauses.append([-v1.bool_vars[val1], -v2.bool_vars[val2]])",
+        "self._encode_sum_le([partial_sum] + list(variables[2:]), target)",
+    ],
+    "SATEncoder._encode_sum_ge": [
+        "if len(variables) == 0:\n        if target > 0:\n            self._clauses.append([])\n        return",
+        "if len(variables) == 1:\n        v = variables[0]\n        for val in range(v.lb, v.ub + 1):\n            if val < target:\n                self._clauses.append([-v.bool_vars[val]])\n        return",
+        "if len(variables) == 2:\n        v1, v2 = variables\n        for val1 in range(v1.lb, v1.ub + 1):\n            for val2 in range(v2.lb, v2.ub + 1):\n                if val1 + val2 < target:\n                    self._clauses.append([-v1.bool_vars[val1], -v2.bool_vars[val2]])\n        return",
+        "v1, v2 = (variables[0], variables[1])\n    rest_max = sum((v.ub for v in variables[2:]))\n    partial_sum = self._create_int_var(max(v1.lb + v2.lb, target - rest_max), v1.ub + v2.ub)",
+        "s = val1 + val2\n            if s in partial_sum.bool_vars:\n                self._clauses.append([-v1.bool_vars[val1], -v2.bool_vars[val2], partial_sum.bool_vars[s]])\n            else:\n                self._clauses.append([-v1.bool_vars[val1], -v2.bool_vars[val2]])",
+        "self._encode_sum_ge([partial_sum] + list(variables[2:]), target)",
+    ],
+    "SATEncoder._encode_disjunctive_le": [
+        "for s1 in range(start1.lb, start1.ub + 1):\n        for s2 in range(start2.lb, start2.ub + 1):\n            i_before_j = s1 + dur1 <= s2\n            j_before_i = s2 + dur2 <= s1\n            if not i_before_j and (not j_before_i):\n                self._clauses.append([-start1.bool_vars[s1], -start2.bool_vars[s2]])",
+    ],
+    "SATEncoder._encode_no_overlap": [
+        "n = len(starts)\n    for i in range(n):\n        for j in range(i + 1, n):\n            self._encode_disjunctive_le(starts[i], durations[i], starts[j], durations[j])",
+    ],
+    "SATEncoder._encode_circuit": [
+        "self._encode_all_different(variables)",
+        "for i, var in enumerate(variables):\n        if i in var.bool_vars:\n            self._clauses.append([-var.bool_vars[i]])",
+        "if n <= 1:\n        return",
+        "t = [self._create_int_var(0 if i == 0 else 1, n - 1) for i in range(n)]\n    self._clauses.append([t[0].bool_vars[0]])",
+        "for i, var in enumerate(variables):\n        for j in range(1, n):\n            if j in var.bool_vars:\n                for ti in t[i].bool_vars:\n                    for tj in range(t[j].lb, ti + 1):\n                        if tj in t[j].bool_vars:\n                            self._clauses.append([-var.bool_vars[j], -t[i].bool_vars[ti], -t[j].bool_vars[tj]])",
+    ],
+    "SATEncoder._encode_vars": [
+        "for var in self.model._vars.values():\n        lits = [var.bool_vars[v] for v in range(var.lb, var.ub + 1)]\n        self._encode_exactly_one(lits)",
+    ],
     "SATEncoder._encode_capacity_constraint": [
         "for subset in combinations(range(n), size):",
         "if sum((demands[i] for i in subset)) > capacity:",
